@@ -189,6 +189,7 @@ class Walker(object):
         self.max_paths = max_paths
         self.max_steps = max_steps
         self.loop_bound = loop_bound
+        self.branch_loop_bound = None      # separate bound for forks on a symbolic branch (default: loop_bound)
         self.max_depth = max_depth
         self.effect_hook = None      # f(walker, state, path, args, dest_ty, span) -> value | None
         self.call_hook = None        # f(walker, state, path, args) -> 'effect' | None
@@ -1335,7 +1336,7 @@ class Walker(object):
                 return None
             # symbolic: fork
             c = self.loop_guard(st, fr)
-            if c > self.loop_bound:
+            if c > (self.loop_bound if self.branch_loop_bound is None else self.branch_loop_bound):
                 return self.finish(st, "cut", detail="loop bound at %s bb%d (%s)" % (fr.fn.path, fr.block, fr.fn.loc(t.get("span"))))
             self.stats["forks"] += 1
             succ = []
